@@ -290,7 +290,10 @@ func (db *Database) Ensure(sch *schema.Schema) {
 				// add newly created indexes
 				ti := meta.GetRoInfo(sch.Table) // not actually read-only
 				i := len(ti.Indexes) - len(ovs)
-				copy(ti.Indexes[i:], ovs)
+				for j, ov := range ovs {
+					// layers may have been merged since buildIndexes
+					ti.Indexes[i+j] = ov.WithNlayers(len(ti.Deltas))
+				}
 			}
 			state.Meta = meta
 		})
@@ -509,7 +512,10 @@ func (db *Database) AlterCreate(sch *schema.Schema) {
 				// add newly created indexes
 				ti := meta.GetRoInfo(sch.Table) // not really read-only
 				i := len(ti.Indexes) - len(ovs)
-				copy(ti.Indexes[i:], ovs)
+				for j, ov := range ovs {
+					// layers may have been merged since buildIndexes
+					ti.Indexes[i+j] = ov.WithNlayers(len(ti.Deltas))
+				}
 			}
 			state.Meta = meta
 		})
